@@ -126,6 +126,23 @@ func shapes() []Shape {
 			return &ref.StreamSpec{Client: A, Server: B, CPort: 1004, SPort: 80, Start: start(k), Pkts: simplePkts(k, "f1.pcap", ch...)}
 		}))
 	}
+	// a packet of more than 64 KiB (two packet records) behind k small packets: its records straddle the multiples of
+	// 256 records at which a reader that fetches packet records in pages starts a new page
+	for _, n := range []int{254, 255, 256, 511} {
+		n := n
+		sh = append(sh, mk(fmt.Sprintf("%d payload-less packets, then a chunk of 70000 bytes", n), true, func(k int) *ref.StreamSpec {
+			ch := []ref.Chunk{}
+			for i := 0; i < n; i++ {
+				if i%2 == 0 {
+					ch = append(ch, C(""))
+				} else {
+					ch = append(ch, S(""))
+				}
+			}
+			ch = append(ch, ref.Chunk{Dir: ref.DirS2C, Data: fill(70000, byte(n))}, C("post"))
+			return &ref.StreamSpec{Client: A, Server: B, CPort: 1019, SPort: 80, Start: start(k), Pkts: simplePkts(k, "f1.pcap", ch...)}
+		}))
+	}
 	sh = append(sh, mk("300 payload-less packets before first chunk", true, func(k int) *ref.StreamSpec {
 		var ch []ref.Chunk
 		for i := 0; i < 300; i++ {
